@@ -366,20 +366,28 @@ func runHistory(r *rng.R, id int, wo, wi *bufio.Writer) {
 			}
 			pending = nil
 			emit(fmt.Sprintf("X %d %s", budget, strings.Join(units, ",")), res)
-		case c < 17: // reopen (uncommitted writes are lost)
+		case c < 17: // reopen (uncommitted writes are lost); sometimes with one more store mounted than before
+			op := "R"
+			if len(names) < 6 && A.ms.LastCommitID().Version >= 1 && i >= 2*nops/3 && r.Chance(1, 2) { // late in the history: what follows is judged by the model only
+				late := fmt.Sprintf("zz%d", len(names))
+				names = append(append([]string{}, names...), late)
+				ns = len(names)
+				op = "M " + late
+				stats["late-mount"]++
+			}
 			A2, _ := newInst(dbA, names, prune)
 			err := A2.ms.LoadLatestVersion()
 			B2, _ := newInst(dbB, names, prune)
 			_ = B2.ms.LoadLatestVersion()
 			if err != nil {
-				emit("R", "err")
+				emit(op, "err")
 				dead = true
 				break
 			}
 			A, B = A2, B2
 			pending = nil
 			h, ok := own[A.ms.LastCommitID().Version]
-			emit("R", fmt.Sprintf("ok ver=%d info=%v %s", A.ms.LastCommitID().Version, !ok || bytes.Equal(h, A.ms.LastCommitID().Hash), A.contents()))
+			emit(op, fmt.Sprintf("ok ver=%d info=%v %s", A.ms.LastCommitID().Version, !ok || bytes.Equal(h, A.ms.LastCommitID().Hash), A.contents()))
 		case c < 18: // load an explicit version on a scratch instance
 			cur := A.ms.LastCommitID().Version
 			v := int64(r.Intn(int(cur) + 3))
